@@ -94,6 +94,12 @@ def tree_text(x, declared=None) -> str:
         decls.append((p, u))
         return p
 
+    # prefixes used inside attribute VALUES are (re)declared first, so that the names of the element and
+    # of its attributes are spelled with prefixes that still mean the right namespace afterwards
+    for _name, v in x["attrs"]:
+        if "s" not in v and v["u"] != NONE and declared.get(v["p"]) != v["u"]:
+            declared[v["p"]] = v["u"]
+            decls.append((v["p"], v["u"]))
     tag = f"{pfx(uri)}:{local}" if uri else local
     if not uri and declared.get(""):
         declared[""] = ""
@@ -101,13 +107,7 @@ def tree_text(x, declared=None) -> str:
     attrs = []
     for name, v in x["attrs"]:
         an = f"{pfx(name[0])}:{name[1]}" if name[0] else name[1]
-        if "s" in v:
-            val = v["s"]
-        else:
-            if v["u"] != NONE and declared.get(v["p"]) != v["u"]:
-                declared[v["p"]] = v["u"]
-                decls.append((v["p"], v["u"]))
-            val = f"{v['p']}:{v['l']}"
+        val = v["s"] if "s" in v else f"{v['p']}:{v['l']}"
         attrs.append(f'{an}="{_esc(val, True)}"')
     dt = "".join(f' xmlns{":" + p if p else ""}="{u}"' for p, u in decls)
     body = _esc(x["text"]) + "".join(tree_text(k, declared) for k in x["kids"])
@@ -133,6 +133,16 @@ def ref_canon(r):
     return {"name": list(r["name"]), "attrs": sorted([list(n), v] for n, v in r["attrs"]), "content": merged}
 
 
+def f18_image(src, r):
+    """The reference tree with exactly the transformation of finding F18 applied: an attribute value
+    prefix:local whose prefix is declared becomes {in-scope uri}local (the RIGHT uri - anything else
+    is a different defect and is reported)."""
+    attrs = []
+    for (name, v), (rn, rv) in zip(src["attrs"], r["attrs"]):
+        attrs.append([rn, f"{{{v['u']}}}{v['l']}" if "s" not in v and v["u"] != NONE else rv])
+    return {**r, "attrs": attrs, "kids": [f18_image(a, b) for a, b in zip(src["kids"], r["kids"])]}
+
+
 def spec_any(p) -> AnyElement:
     return AnyElement(qname=rb.clark(p["qname"]), text=p["text"], tail=None if p["tail"] == NONE else p["tail"],
                       attributes={rb.clark(n): v for n, v in p["attrs"]}, children=[spec_any(k) for k in p["children"]])
@@ -148,7 +158,8 @@ def find_el(tree, name):
 def check_tree(ctx, case, placements):
     src, ref = case["src"], case["ref"]
     want = ref_canon(ref)
-    tags = ["F18"] if case["f18"] else []
+    want_f18 = ref_canon(f18_image(src, ref)) if case["f18"] else None
+    tags = []
     inner = tree_text(src)
     xctx = XmlContext()
     # the stand-alone tree parser
@@ -191,7 +202,7 @@ def check_tree(ctx, case, placements):
                     continue
                 if got != want:
                     ctx.violation(f"placement {pname} ({h} handler, {w} writer): the fragment came back as {got}, the source says {want}",
-                                  {**info, "out": out})
+                                  {**info, "out": out, "finding_tags": ["F18"] if want_f18 is not None and got == want_f18 else []})
 
 
 def run(ctx):
